@@ -1,0 +1,166 @@
+//go:build verif
+
+package gojq
+
+import (
+	"fmt"
+	"sync/atomic"
+)
+
+// Verification hooks (build tag verif): accessors for the compiled code and
+// the live interpreter state, wrappers around the persistent stacks, and a
+// switch consulted at each optimization site. Nothing here is compiled
+// without the tag.
+
+const (
+	verifOptConstObject  = 1 << iota // compileObject: constant objects
+	verifOptConstArray               // compileArray: constant arrays
+	verifOptUnaryConst               // compileUnary: signed number literals
+	verifOptConstIndex               // compileIndex: constant keys and slices to opindex
+	verifOptIdentityArg              // compileCallInternal: identity argument
+	verifOptOneInstrArg              // compileCallInternal: one instruction argument
+	verifOptIfConst                  // compileIf: constant branch results
+	verifOptConstSetpath             // compileQueryUpdate: constant path to setpath
+	verifOptTailRec                  // optimizeTailRec
+	verifOptPeephole                 // optimizeCodeOps: push/pop/const rewriting
+	verifOptJumpThread               // optimizeCodeOps: jump threading
+	verifOptAll          = 1<<iota - 1
+)
+
+// Optimization switches for VerifSetOptOff.
+const (
+	VerifOptConstObject  = verifOptConstObject
+	VerifOptConstArray   = verifOptConstArray
+	VerifOptUnaryConst   = verifOptUnaryConst
+	VerifOptConstIndex   = verifOptConstIndex
+	VerifOptIdentityArg  = verifOptIdentityArg
+	VerifOptOneInstrArg  = verifOptOneInstrArg
+	VerifOptIfConst      = verifOptIfConst
+	VerifOptConstSetpath = verifOptConstSetpath
+	VerifOptTailRec      = verifOptTailRec
+	VerifOptPeephole     = verifOptPeephole
+	VerifOptJumpThread   = verifOptJumpThread
+	VerifOptAll          = verifOptAll
+)
+
+// VerifOptNames names the switches in bit order.
+var VerifOptNames = []string{"const-object", "const-array", "unary-const", "const-index", "identity-arg", "one-instr-arg", "if-const", "const-setpath", "tail-rec", "peephole", "jump-thread"}
+
+var verifOptMask atomic.Uint32
+
+// VerifSetOptOff disables the optimizations in mask for subsequent Compile
+// calls and returns the previous mask.
+func VerifSetOptOff(mask uint32) uint32 { return verifOptMask.Swap(mask) }
+
+func verifOptOff(opt uint32) bool { return verifOptMask.Load()&opt != 0 }
+
+// VerifInstr is one instruction of a compiled query.
+type VerifInstr struct {
+	Op string
+	V  any
+}
+
+func (i VerifInstr) String() string { return fmt.Sprintf("%s %v", i.Op, i.V) }
+
+// VerifCodes returns the instruction list of a compiled query. Native
+// callbacks are replaced by their names.
+func VerifCodes(c *Code) []VerifInstr {
+	out := make([]VerifInstr, len(c.codes))
+	for i, code := range c.codes {
+		if code == nil {
+			out[i] = VerifInstr{Op: "<nil>"}
+			continue
+		}
+		v := code.v
+		if x, ok := v.([3]any); ok {
+			v = fmt.Sprintf("%v/%v", x[2], x[1])
+		}
+		out[i] = VerifInstr{Op: code.op.String(), V: v}
+	}
+	return out
+}
+
+// VerifFootprint reports the sizes of the interpreter state of a live
+// iterator returned by Run (nil for other iterators).
+func VerifFootprint(iter Iter) map[string]int {
+	env, ok := iter.(*env)
+	if !ok {
+		return nil
+	}
+	return map[string]int{
+		"forks":        len(env.forks),
+		"stack.data":   len(env.stack.data),
+		"stack.index":  env.stack.index,
+		"stack.limit":  env.stack.limit,
+		"scopes.data":  len(env.scopes.data),
+		"scopes.index": env.scopes.index,
+		"scopes.limit": env.scopes.limit,
+		"paths.data":   len(env.paths.data),
+		"paths.index":  env.paths.index,
+		"values":       len(env.values),
+		"offset":       env.offset,
+	}
+}
+
+// VerifBuiltinFuncDefs returns the precompiled definitions of builtin.go.
+func VerifBuiltinFuncDefs() map[string][]*FuncDef { return builtinFuncDefs }
+
+// VerifStack wraps the persistent value stack.
+type VerifStack struct{ s *stack }
+
+func VerifNewStack() *VerifStack       { return &VerifStack{newStack()} }
+func (s *VerifStack) Push(v any)       { s.s.push(v) }
+func (s *VerifStack) Pop() any         { return s.s.pop() }
+func (s *VerifStack) Top() any         { return s.s.top() }
+func (s *VerifStack) Empty() bool      { return s.s.empty() }
+func (s *VerifStack) Save() (int, int) { return s.s.save() }
+func (s *VerifStack) Restore(i, l int) { s.s.restore(i, l) }
+func (s *VerifStack) Len() int         { return len(s.s.data) }
+
+// VerifScopeStack wraps the persistent scope stack; values are scope ids.
+type VerifScopeStack struct{ s *scopeStack }
+
+func VerifNewScopeStack() *VerifScopeStack  { return &VerifScopeStack{newScopeStack()} }
+func (s *VerifScopeStack) Push(id int)      { s.s.push(scope{id: id}) }
+func (s *VerifScopeStack) Pop() int         { return s.s.pop().id }
+func (s *VerifScopeStack) Empty() bool      { return s.s.empty() }
+func (s *VerifScopeStack) Save() (int, int) { return s.s.save() }
+func (s *VerifScopeStack) Restore(i, l int) { s.s.restore(i, l) }
+func (s *VerifScopeStack) Len() int         { return len(s.s.data) }
+
+// compileIndexGeneral is the unoptimized path of compileIndex (always a
+// call of _index or _slice), used when VerifOptConstIndex is off.
+func (c *compiler) compileIndexGeneral(e *Term, x *Index) error {
+	c.appendCodeInfo(x)
+	if x.Name != "" {
+		return c.compileCall("_index", []*Query{{Term: e}, {Term: &Term{Type: TermTypeString, Str: &String{Str: x.Name}}}})
+	}
+	if x.Str != nil {
+		return c.compileCall("_index", []*Query{{Term: e}, {Term: &Term{Type: TermTypeString, Str: x.Str}}})
+	}
+	if !x.IsSlice {
+		return c.compileCall("_index", []*Query{{Term: e}, x.Start})
+	}
+	if x.Start == nil {
+		return c.compileCall("_slice", []*Query{{Term: e}, x.End, {Term: &Term{Type: TermTypeNull}}})
+	}
+	if x.End == nil {
+		return c.compileCall("_slice", []*Query{{Term: e}, {Term: &Term{Type: TermTypeNull}}, x.Start})
+	}
+	return c.compileCall("_slice", []*Query{{Term: e}, x.End, x.Start})
+}
+
+// compileUnaryGeneral is the unoptimized path of compileUnary.
+func (c *compiler) compileUnaryGeneral(e *Unary) error {
+	if err := c.compileTerm(e.Term); err != nil {
+		return err
+	}
+	switch e.Op {
+	case OpAdd:
+		return c.compileCall("_plus", nil)
+	case OpSub:
+		return c.compileCall("_negate", nil)
+	default:
+		return fmt.Errorf("unexpected operator in Unary: %s", e.Op)
+	}
+}
